@@ -275,7 +275,7 @@ def run_c11(ctx: Ctx):
     ctx.trusted_base = PARSE_TRUST + ["Model/Bridge.v is a hand-written model of MarkerExpression._get_specifier (comparison / ~= / wildcard operators), from_specifier (incl. the python_full_version zero padding) and of the version branch of _evaluate "
                                       "(= packaging's Specifier(op operand).contains(value) = clause_sem) over tokenised atoms; tied to the code by the S-bridge stream (specifier view compared structurally, evaluate() on an interpreter grid, from_specifier results)",
                                       "`in` / `not in` lists are outside the model (string containment; known finding pv-in-substring): direct oracle only"]
-    props_spec.proof_step(ctx, "Props/C11.v", ["C11_view", "C11_back", "C11_padding", "C11_merge", "C11_normalize", "C11_merge_pv", "C11_reversed", "C11_link", "C11_linked_ops"], extra_targets=["Model/Bridge.v", "Model/CorrParse.v", "Model/Corr.v"])
+    props_spec.proof_step(ctx, "Props/C11.v", ["C11_view", "C11_back", "C11_padding", "C11_merge", "C11_normalize", "C11_merge_pv", "C11_reversed", "C11_link", "C11_linked_ops", "C11_link_pv", "C11_linked_normaliser"], extra_targets=["Model/Bridge.v", "Model/CorrParse.v", "Model/Corr.v"])
     if not any(b["kind"] == "translation" for b in ctx.broken):
         sbridge.stream_sbridge(ctx)
         sparse.stream_sparse(ctx, 120 if ctx.tier == "quick" else 1500)
@@ -313,7 +313,7 @@ def run_c10(ctx: Ctx):
         "memoisation is modelled as the inductive family `reach`: cold computations, further steps over reachable callees, and cnf/dnf answering with what a reachable family returned for a ==-equal marker; "
         "_merge_single_markers (key: structurally equal atoms) and parse_marker (key: the text) return identical results on a hit and are not modelled; per-object lazy caches are not modelled",
         "the theorems are about MEANING; history independence of the rendered TEXT is decided by the direct oracle only (and fails for the recorded finding value-order-text-only)"] + MARKER_TRUST
-    props_spec.proof_step(ctx, "Props/C10.v", ["C10_reach_sound", "C10_meaning", "C10_history_independent", "step_sound", "level_S"], extra_targets=["Model/CorrMarker.v", "Model/MarkerOpen.v"])
+    props_spec.proof_step(ctx, "Props/C10.v", ["C10_reach_sound", "C10_meaning", "C10_history_independent", "C10_history_independent_or", "step_sound", "level_S"], extra_targets=["Model/CorrMarker.v", "Model/MarkerOpen.v"])
     ctx.coverage["explanation"] = ("theorems C10_reach_sound / C10_meaning / C10_history_independent over Model/MarkerOpen.v (meaning is history independent); the direct oracle runs random histories over key-equal spelling families and compares "
                                    "text and truth table of the warm probe with the same probe run first in a fresh interpreter")
     smark.stream_smark(ctx, 40 if ctx.tier == "quick" else 600, with_parse=False, with_only=False, with_eval=False)
